@@ -170,6 +170,79 @@ theorem div_zero_sign (a b : Nat) (fa : FinB a) (fb : FinB b) (ha0 : bval a = 0)
   simp only [h1, h2, if_true, Bool.false_eq_true, if_false]
   exact withSign_zero _
 
+/-! ## every result fits the width (the `F64` wrappers never truncate) -/
+
+theorem quiet_lt (b : Nat) (hb : b < 18446744073709551616) : quiet .f64 b < 18446744073709551616 := by
+  rw [quiet_f64]; split <;> omega
+
+theorem inf_lt (s : Bool) : inf s < 18446744073709551616 := by unfold inf; cases s <;> decide
+theorem zero_lt (s : Bool) : zero s < 18446744073709551616 := by unfold zero; cases s <;> decide
+theorem dNaN_lt : dNaN < 18446744073709551616 := by decide
+
+theorem add_lt (a b : Nat) (ha : a < 18446744073709551616) (hb : b < 18446744073709551616) :
+    Num.add .f64 a b < 18446744073709551616 := by
+  by_cases na : NNB a
+  · by_cases nb : NNB b
+    · by_cases fa : FinB a <;> by_cases fb : FinB b
+      · exact (Rnd_lt _ _ (add_Rnd a b fa fb)).2
+      · rw [add_fin_inf a b fa ⟨nb, fb⟩]; exact hb
+      · rw [add_inf_fin a b ⟨na, fa⟩ fb]; exact ha
+      · rw [add_inf_inf a b ⟨na, fa⟩ ⟨nb, fb⟩]; split
+        · exact ha
+        · exact dNaN_lt
+    · rw [add_nan_right a b na nb]; exact quiet_lt b hb
+  · rw [add_nan_left a b na]; exact quiet_lt a ha
+
+theorem neg_NNB (b : Nat) (hb : b < 18446744073709551616) (h : NNB b) : NNB (Num.neg .f64 b) := by
+  unfold NNB at *; unfold Num.neg; rw [signBit_f64]; split <;> omega
+
+theorem sub_lt (a b : Nat) (ha : a < 18446744073709551616) (hb : b < 18446744073709551616) :
+    Num.sub .f64 a b < 18446744073709551616 := by
+  by_cases na : NNB a
+  · by_cases nb : NNB b
+    · rw [sub_eq_add_neg a b na nb]; exact add_lt a _ ha (neg_lt b hb)
+    · rw [sub_nan_right a b na nb]; exact quiet_lt b hb
+  · rw [sub_nan_left a b na]; exact quiet_lt a ha
+
+theorem mul_lt (a b : Nat) (ha : a < 18446744073709551616) (hb : b < 18446744073709551616) :
+    Num.mul .f64 a b < 18446744073709551616 := by
+  by_cases na : NNB a
+  · by_cases nb : NNB b
+    · by_cases fa : FinB a <;> by_cases fb : FinB b
+      · exact (Rnd_lt _ _ (mul_Rnd a b fa fb)).2
+      · rw [mul_fin_inf a b fa ⟨nb, fb⟩]; split
+        · exact dNaN_lt
+        · exact inf_lt _
+      · rw [mul_inf_fin a b ⟨na, fa⟩ fb]; split
+        · exact dNaN_lt
+        · exact inf_lt _
+      · rw [mul_inf_inf a b ⟨na, fa⟩ ⟨nb, fb⟩]; exact inf_lt _
+    · rw [mul_nan_right a b na nb]; exact quiet_lt b hb
+  · rw [mul_nan_left a b na]; exact quiet_lt a ha
+
+theorem div_lt (a b : Nat) (ha : a < 18446744073709551616) (hb : b < 18446744073709551616) :
+    Num.div .f64 a b < 18446744073709551616 := by
+  by_cases na : NNB a
+  · by_cases nb : NNB b
+    · by_cases fa : FinB a <;> by_cases fb : FinB b
+      · by_cases h0 : bval b = 0
+        · rw [div_by_zero a b fa fb h0]; split
+          · exact dNaN_lt
+          · exact inf_lt _
+        · exact (Rnd_lt _ _ (div_Rnd a b fa fb ((mant_zero_iff b).not.1 h0))).2
+      · rw [div_fin_inf a b fa ⟨nb, fb⟩]; exact zero_lt _
+      · rw [div_inf_fin a b ⟨na, fa⟩ fb]; exact inf_lt _
+      · rw [div_inf_inf a b ⟨na, fa⟩ ⟨nb, fb⟩]; exact dNaN_lt
+    · rw [div_nan_right a b na nb]; exact quiet_lt b hb
+  · rw [div_nan_left a b na]; exact quiet_lt a ha
+
+/-- the `F64` operators are the `Nat`-level operations on the bit patterns -/
+theorem F64_ops (a b : F64) :
+    (a + b).nb = Num.add .f64 a.nb b.nb ∧ (a - b).nb = Num.sub .f64 a.nb b.nb ∧
+    (a * b).nb = Num.mul .f64 a.nb b.nb ∧ (a / b).nb = Num.div .f64 a.nb b.nb :=
+  ⟨nb_ofNatBits _ (add_lt _ _ (nb_lt a) (nb_lt b)), nb_ofNatBits _ (sub_lt _ _ (nb_lt a) (nb_lt b)),
+   nb_ofNatBits _ (mul_lt _ _ (nb_lt a) (nb_lt b)), nb_ofNatBits _ (div_lt _ _ (nb_lt a) (nb_lt b))⟩
+
 -- non-vacuity
 example : InfB 0x7FF0000000000000 ∧ InfB 0xFFF0000000000000 ∧
     Num.add .f64 0x7FF0000000000000 0xFFF0000000000000 = dNaN := ⟨by decide, by decide, by decide +kernel⟩
